@@ -5,7 +5,7 @@
    and LSB residues of variable-length fields preceded by their size on 4/12/28 bits), then the payload.
    Only statements; proofs in theories/SchcCodec.v. *)
 From Coq Require Import ZArith List Bool.
-From MS Require Import PyBase Buffer Bits BufferAbs Schc SchcSpec SchcCodec SchcBytes SchcRefine.
+From MS Require Import PyBase Buffer Bits BufferAbs Schc SchcSpec SchcCodec SchcBytes SchcRefine EndToEnd.
 Import ListNotations.
 Open Scope Z_scope.
 
@@ -17,7 +17,7 @@ Proof. exact (compress_fields_spec pfs rfs acc rs). Qed.
 (* a no-compression rule yields rule id followed by the packet (fields then payload) *)
 Theorem c02_no_compression pd r d : rule_nature r = NoCompression ->
   compress pd r d = Ok (rule_id r ++ concat (map f_val (pd_fields pd)) ++ pd_payload pd).
-Proof. intros H. apply compress_layout. unfold layout. rewrite H. reflexivity. Qed.
+Proof. exact (compress_no_compression pd r d). Qed.
 (* the size announcement is the RFC 8724 7.4.2 one *)
 Theorem c02_size n : 0 <= n < 65536 -> encode_length n = Ok (spec_size n).
 Proof. exact (encode_length_spec n). Qed.
@@ -27,7 +27,7 @@ Proof. exact (encode_length_spec n). Qed.
 Theorem c02_layout_bytes pd r d s : canon_pdesc pd -> canon_rule r ->
   layout (abs_pdesc abs pd) (abs_rule abs r) d = Some s ->
   exists x, bcompress pd r d = Ok x /\ canon x /\ abs x = s.
-Proof. intros Hp Hr Hl. apply (bcompress_refines pd r d s Hp Hr). apply compress_layout. exact Hl. Qed.
+Proof. exact (bcompress_layout pd r d s). Qed.
 Theorem c02_size_bytes n p : encode_length n = Ok p -> exists x, bencode_length n = Ok x /\ canon x /\ abs x = p.
 Proof. exact (bencode_length_refines n p). Qed.
 
